@@ -3,6 +3,7 @@ copies and pickles."""
 import os, sys, gc, copy, pickle, random, datetime, warnings, weakref, time, json, itertools, collections
 import basecorr
 import sched18 as S
+import resolve18 as RV
 from vlib import hexs
 
 PROP = "C18"
@@ -17,13 +18,18 @@ TRUSTED = [
     "(strong cache, callers, local variables of any thread); the driver runs the CPython schedule (collect at once)",
     "harness/sched18.py: threads are scheduled one source line at a time through sys.settrace and an instrumented lock "
     "substituted for the factory's cache lock; fresh factories are subclasses re-running the metaclass __init__ / a new GettzFunc",
+    "Model/GettzResolve.lean mirrors GettzFunc.nocache statement by statement over an abstract environment; tied by gettz.resolve: "
+    "the real nocache / GettzFunc.__call__ run on a temporary zoneinfo tree with patched TZPATHS, TZFILES, TZ (tzset), vendored "
+    "database; the environment sent to the model is probed with Python's own os.path.join / str.replace / os.path.isfile / tzfile()",
     "zone __eq__ table (Model/Factory.lean eqMethod/pyEq) tied by zone.eq / zone.eqm on every ordered pair of a pool of all zone kinds",
 ]
 ASSUMPTIONS = [
     "pre-emption inside WeakValueDictionary.setdefault is modelled (read / write are two steps) and exercised on the implementation by the "
     "fine-granularity stream (line events inside weakref.py); pre-emption inside C-level dict / OrderedDict operations is not (GIL-atomic)",
-    "gettz.nocache(name) is modelled by its result class (cacheable zone / tzlocal-or-unnamed / None); the nested tzstr factory "
-    "call and the UTC constant it may return are treated as opaque zone objects (lock order gettz -> tzstr only)",
+    "in the factory state machine gettz.nocache(name) enters by its result class (cacheable zone / tzlocal-or-unnamed / None); the class is "
+    "what Model/GettzResolve.lean computes (cacheClass, theorem gettz_caches_exactly, tied by the cache-class comparison of gettz.resolve); "
+    "whether tzstr accepts a string is a parameter of the resolution model (the TZ-string grammar is C08's); tz/win.py is not modelled; "
+    "an exception escaping nocache inside GettzFunc.__call__ (D-C18-badfile) is not a path of the state machine (the `with` releases the lock: checked)",
     "set_cache_size is called with a non-negative integer",
     "tzutc: the singleton slot is filled by `UTC = tzutc()` while tz.py is imported (checked by the oracle); the theorem for the "
     "singleton assumes that initial state, and the model exhibits the two-object race of an un-initialised _TzSingleton class",
@@ -401,6 +407,65 @@ TZENVS = ["UTC", "EST5EDT", "XYZ3", "GMT0"]
 
 
 # ======================================================================================
+# name resolution order of gettz under a controlled environment
+# ======================================================================================
+def resolve_runs(ctx):
+    """real gettz.nocache / GettzFunc.__call__ on a temporary zoneinfo tree with patched TZPATHS / TZFILES /
+    TZ / vendored database; the tree is removed before returning"""
+    if getattr(ctx, "_c18_resolve", None) is not None:
+        return ctx._c18_resolve
+    rng = ctx.subrng("resolve")
+    out = []
+    tree = RV.Tree()
+    try:
+        envs = list(RV.environments(tree))
+        n = ctx.budget(60, len(envs))
+        if n < len(envs):
+            envs = rng.sample(envs, n)
+        canon = lambda x: x.replace(tree.root, "$R") if isinstance(x, str) else x
+        for tzvar, files, paths, vend in envs:
+            with RV.patched(tzvar, files, paths, vend) as env:
+                for name in RV.names(tree, rng):
+                    cc, locked = RV.cache_class(env, name)
+                    out.append({"op": "resolve", "tzvar": canon(tzvar), "tzfiles": [canon(x) for x in files],
+                                "tzpaths": [canon(x) for x in paths], "vendored": sorted(vend.zones), "tzname": env.tzname,
+                                "name": canon(name), "req": RV.model_request(env, name), "impl": canon_hex(RV.run_impl(env, name), tree),
+                                "spec": canon_hex(RV.spec(env, name), tree), "cache_class": cc, "lock_left_held": locked})
+        ctx._c18_bytes = None
+        with RV.patched(None, [], [tree.zi1], RV.Vendored({})) as env:
+            from dateutil import tz
+            try:
+                tz.gettz(b"Europe/Paris"); ctx._c18_bytes = "returned"
+            except TypeError:
+                ctx._c18_bytes = "TypeError"
+            except Exception as ex:      # noqa
+                ctx._c18_bytes = type(ex).__name__
+    finally:
+        tree.close()
+    ctx._c18_resolve_root = tree.root
+    ctx._c18_resolve = out
+    return out
+
+
+def canon_hex(res, tree):
+    """`ok file <hex>` with the temporary root replaced (so that cases are comparable across runs)"""
+    parts = res.split(" ")
+    if len(parts) == 3 and parts[1] == "file":
+        try:
+            p = bytes.fromhex(parts[2]).decode("utf-8", "surrogatepass") if parts[2] != "." else ""
+            return "ok file " + p.replace(tree.root, "$R")
+        except ValueError:
+            return res
+    if len(parts) == 3 and parts[1] in ("vendored", "tzstr"):
+        return "ok %s %s" % (parts[1], bytes.fromhex(parts[2]).decode("utf-8", "surrogatepass") if parts[2] != "." else "")
+    return res
+
+
+def resolve_case(r):
+    return {k: r[k] for k in ("op", "tzvar", "tzfiles", "tzpaths", "vendored", "tzname", "name", "impl", "spec")}
+
+
+# ======================================================================================
 # correspondence
 # ======================================================================================
 def correspondence(ctx):
@@ -435,6 +500,23 @@ def correspondence(ctx):
                          {"rets": r["rets"], "strong": r["strong"], "weak": r["weak"], "errors": r["errors"]},
                          {"model": m, "diffs": diffs})
     ctx.traces += len(truns)
+    # ---- gettz name resolution vs the model (`gettz.resolve`) ----
+    rr = resolve_runs(ctx)
+    root = ctx._c18_resolve_root
+    got = ctx.driver([r["req"] for r in rr])
+    class _T:                      # canon_hex only needs .root
+        pass
+    t = _T(); t.root = root
+    for r, g in zip(rr, got):
+        parts = g.rsplit(" c", 1)
+        model_res = canon_hex(parts[0], t) if g.startswith("ok") else g
+        model_cc = int(parts[1]) if (g.startswith("ok") and len(parts) == 2) else None
+        ctx.count("resolve_" + r["impl"].split(" ")[0] + "_" + (r["impl"].split(" ")[1] if " " in r["impl"] else ""))
+        if model_res != r["impl"]:
+            ctx.mismatch("gettz.resolve", resolve_case(r), r["impl"], model_res)
+        elif model_cc is not None and model_cc != r["cache_class"]:
+            ctx.mismatch("gettz.resolve(cache class)", resolve_case(r), r["cache_class"], model_cc)
+    ctx.traces += len(rr)
     # ---- zone equality table vs the model ----
     reqs, exp, desc = [], [], []
     for env in TZENVS:
@@ -493,6 +575,29 @@ def oracle(ctx):
         c = {"mode": "free", "what": what}; c.update(case)
         ctx.violation("free-running threads: " + what, c, None)
     ctx.case(("free-running", ctx.seed))
+    # ---- name resolution order: the documented order, nothing but the documented results, no exception ----
+    for r in resolve_runs(ctx):
+        ctx.case(("resolve", r["tzvar"], tuple(r["tzfiles"]), tuple(r["tzpaths"]), tuple(r["vendored"]), r["name"]),
+                 nontrivial=r["impl"] not in ("ok none",))
+        if r["impl"] != r["spec"]:
+            if r["spec"] == "not-a-tzfile":
+                # NOT required by C18: an unreadable / non-TZif file met at a point where the code has no handler
+                # (absolute path; struct.error from truncated data) makes gettz raise.  The property speaks of
+                # well-formed requests; this is recorded as an observation only (DESIGN §0.2), never as a violation.
+                ctx.count("resolve_unreadable_file_raises_not_required")
+                continue
+            kind = "resolve_other_difference"
+            ctx.count(kind)
+            if ctx.hist[kind] <= 8:            # (the violation list is capped: keep room for everything else)
+                ctx.violation("gettz.nocache(%r) gave %s, the documented resolution order gives %s" % (r["name"], r["impl"], r["spec"]),
+                              resolve_case(r), None)
+        if r["lock_left_held"]:
+            ctx.violation("gettz(%r) left the cache lock held" % (r["name"],), dict(resolve_case(r), op="resolve_lock"), None)
+    if getattr(ctx, "_c18_bytes", "TypeError") != "TypeError":
+        ctx.violation("gettz(bytes) should raise the documented TypeError, got %s" % ctx._c18_bytes, {"op": "resolve_bytes"}, None)
+    rs = [r for r in resolve_runs(ctx) if r["impl"].startswith("ok file")]
+    if rs:
+        ctx.sample({"op": "resolve", "name": rs[0]["name"], "tzpaths": rs[0]["tzpaths"], "result": rs[0]["impl"]})
     # ---- single-thread identity on the process-wide factories ----
     direct_identity(ctx, tz)
     # ---- equality laws, equal offsets, copies and pickles ----
@@ -682,6 +787,20 @@ def replay(ctx, payload):
                 rec = S.run_threads(fac, scripts, S.PrefixPolicy(c["schedule"]), fine=bool(c.get("fine")))
         print("schedule %s\nreturns %s\nerrors %s duplicates %s all_returned %s" % (rec["schedule"], rec["rets"], rec["errors"], rec["dups"], rec["all_returned"]))
         return not rec["errors"] and not rec["dups"] and rec["all_returned"] and rec["lock_balanced"]
+    if c.get("op") in ("resolve", "resolve_lock"):
+        tree = RV.Tree()
+        try:
+            sub = lambda x: x.replace("$R", tree.root) if isinstance(x, str) else x
+            vend = RV.Vendored({k: tz.tzfile(os.path.join(RV.SYS, "Asia/Tehran")) for k in c["vendored"]})
+            with RV.patched(sub(c["tzvar"]), [sub(x) for x in c["tzfiles"]], [sub(x) for x in c["tzpaths"]], vend) as env:
+                class _T:
+                    root = tree.root
+                impl = canon_hex(RV.run_impl(env, sub(c["name"])), _T)
+                spec = canon_hex(RV.spec(env, sub(c["name"])), _T)
+        finally:
+            tree.close()
+        print("gettz.nocache(%r): impl %s, documented order %s" % (c["name"], impl, spec))
+        return impl == spec
     if c.get("op") == "cache_clear_identity":
         a = tz.gettz(c["name"]); tz.gettz.cache_clear(); b = tz.gettz(c["name"])
         print("gettz(%r): same object after cache_clear: %s" % (c["name"], a is b))
